@@ -92,6 +92,8 @@ def draw_case(seed):
     for d, ms in zip(descs, mnames):
         dm = []
         seen = set()
+        if style >= 0.12 and r.random() < 0.15:
+            ms = []          # a class without methods (marker interface, constants holder): nothing to decompile per method
         for m in ms:
             if m in seen:
                 continue
